@@ -25,7 +25,7 @@ LEVEL_TEXT = ("seeded search over storage-fault sequences applied to valid files
               "(unstructured random text is not a storage fault and is not claimed)")
 LEVEL_NOTE = ("allowed outcomes: return, library FormatError family, ValueError (incl. UnicodeDecodeError from the "
               "medium's text layer); a wall-clock trip is re-run under a deterministic line budget before it counts")
-RUNS = {"quick": 9000, "thorough": 400000}
+RUNS = {"quick": 9000, "thorough": 250000}
 OPTIMIZED_PASS = {"quick": 500, "thorough": 8000}   # extra runs under PYTHONOPTIMIZE=1 (assert statements removed)
 OWN_WATCHDOG = True   # per-parse alarm + deterministic line budget inside run()
 RULE = ("per run one valid BF3/BEC2/BF2 file and ~10 damage sets of 1-4 storage faults each; every damaged text is "
